@@ -35,6 +35,37 @@ func genFrom(r *kit.Rand, names []string) fromDef {
 }
 
 func genTask(r *kit.Rand, id string, names []string, focus bool) *taskDef {
+	d := genTask0(r, id, names, focus)
+	for i := range d.froms {
+		d.froms[i].parent = -1
+	}
+	// from() options that do not take part in the routing (checked on the recorded points)
+	for i := range d.froms {
+		if r.Chance(1, 4) {
+			d.froms[i].opts = kit.Pick(r, []string{"g", "a", "m", "t", "r", "gt", "tr", "gm", "ar"})
+		}
+	}
+	// a from() chained below another from()
+	if len(d.froms) > 0 && len(d.froms) < 4 && r.Chance(1, 4) {
+		f := fromDef{wh: -1, parent: r.Intn(len(d.froms))}
+		switch r.Intn(4) {
+		case 0:
+			f.name = kit.Pick(r, names)
+		case 1:
+			f.wh = r.Intn(len(preds))
+		case 2:
+			f.name = d.froms[f.parent].name
+			f.wh = r.Intn(len(preds))
+		}
+		if r.Chance(1, 3) {
+			f.opts = kit.Pick(r, []string{"g", "t", "r"})
+		}
+		d.froms = append(d.froms, f)
+	}
+	return d
+}
+
+func genTask0(r *kit.Rand, id string, names []string, focus bool) *taskDef {
 	d := &taskDef{id: id}
 	if focus {
 		// crowded keys: every task declares d1.autogen, so several tasks share exact and empty-measurement keys
@@ -189,6 +220,56 @@ func genCase(r *kit.Rand, idx int, tier string) []string {
 	}
 	for i := 0; i < nOps; i++ {
 		switch k := r.Intn(100); {
+		case k < 7:
+			// one HTTP request: precision, absent rp / db parameter, possibly a malformed line somewhere in the body
+			db := kit.Esc(kit.Pick(r, genDBs))
+			if r.Chance(1, 10) {
+				db = "%"
+			}
+			rp := kit.Esc(kit.Pick(r, []string{"autogen", "r2", "", ""}))
+			if focus && r.Chance(1, 2) {
+				db, rp = "d1", "autogen"
+			}
+			n := r.Range(1, 5)
+			badAt := -1
+			if r.Chance(1, 3) {
+				badAt = r.Intn(n + 1)
+			}
+			var toks []string
+			for j := 0; j <= n; j++ {
+				if j == badAt {
+					toks = append(toks, fmt.Sprintf("!%d", r.Intn(len(badLines))))
+				}
+				if j == n {
+					break
+				}
+				pid++
+				p := &point{id: pid, name: kit.Pick(r, names), v: int64(r.Intn(10)), host: kit.Pick(r, []string{"a", "b"})}
+				p.pass = passOf(p)
+				toks = append(toks, pointTok(p))
+			}
+			ops = append(ops, fmt.Sprintf("hwrite %s %s %s %s", db, rp, kit.Pick(r, []string{"-", "n", "u", "ms", "s"}), strings.Join(toks, ",")))
+		case k < 13:
+			// several writers at once
+			db, rp := kit.Pick(r, genDBs), kit.Pick(r, []string{"autogen", "r2", ""})
+			if focus {
+				db, rp = "d1", "autogen"
+			}
+			var ws []string
+			for w := r.Range(2, 4); w > 0; w-- {
+				var toks []string
+				for j := r.Range(3, 40); j > 0; j-- {
+					pid++
+					p := &point{id: pid, name: kit.Pick(r, wnames), v: int64(r.Intn(10)), host: kit.Pick(r, []string{"a", "b"})}
+					if p.name == "" {
+						p.host = ""
+					}
+					p.pass = passOf(p)
+					toks = append(toks, pointTok(p))
+				}
+				ws = append(ws, strings.Join(toks, ","))
+			}
+			ops = append(ops, fmt.Sprintf("cwrite %s %s %s", kit.Esc(db), kit.Esc(rp), strings.Join(ws, "&")))
 		case k < 58:
 			n := r.Range(1, 4)
 			if r.Chance(1, 10) {
